@@ -29,8 +29,8 @@ REGISTRY = {
                      (A + "ObjTailSrcThm", "Api.tail_matches_source"), (A + "ConstraintsSrcThm", "Api.numErrors_matches_source"), (A + "ConstraintsSrcThm", "Api.strLenErrors_matches_source"),
                      (A + "ConstraintsSrcThm", "Api.listLenErrors_matches_source"), (A + "ConstraintsSrcThm", "Api.dictErrors_matches_source")],
         "partial": "list equation errors = violations on primitives / lists / tuples / NewTypes / annotations; per-object law (children = violating keys, including `missing property (required by [...])` of dependent_required, "
-                   "both directions) for ObjectMethod; Optional[T] over any method whose errors are the specification's (errors_optional: own messages, `expected null`, then the located errors - under the hypothesis "
-                   "that a rejection carries a message); order of name-keyed children and mappings not yet proved",
+                   "both directions) for ObjectMethod; Optional[T] over any method whose errors are the specification's (errors_optional: own messages, `expected null`, then the located errors; "
+                   "C02_errors_optional for the index-keyed fragment, every option record); order of name-keyed children and mappings not yet proved",
         "assumptions": MODEL_ASSUMPTIONS,
     },
     "C03": {
